@@ -445,7 +445,27 @@ def run(chk):
                     chk.ok("R10", "repeat:" + i.key, i.file, i.line)
                 else:
                     chk.bad("R10", "repeat:" + i.key, i.file, i.line, i.what, i.expected, i.found)
+        # the "... will be overriden" conflict diagnostics of a selective trait-level repeat are raised by merge() through the category
+        # accessor: name list <-> slot <-> guarded parameter must agree (C14.R2 trait-repeat instances)
+        sub2 = Check("C14", chk.repo, chk.tier)
+        sub2.guard("R2", lambda: c14.r2(sub2))
+        for r_, why in sub2.inconclusive:
+            if r_ == "R2":
+                chk.inconc("R10", why)
+        for i in sub2.instances:
+            if i.rule == "R2" and i.key.startswith("trait-repeat["):
+                if i.ok:
+                    chk.ok("R10", "repeat-conflict:" + i.key, i.file, i.line)
+                else:
+                    chk.bad("R10", "repeat-conflict:" + i.key, i.file, i.line, i.what, i.expected, i.found)
     chk.guard("R10", r10)
+
+    def r12():
+        # the uniqueness classes ("at most one default", "already defined") are switched on per instruction vector: on for the
+        # single-entry vectors (misuse reported), off for per-kind vectors (a legal pair is not rejected) -- decided in C12.R5
+        from .c12 import r5 as uniq
+        uniq(chk, "R12")
+    chk.guard("R12", r12)
 
     def r11():
         # allow_unknown is a switch of the whole item: once an #[o2o(allow_unknown)] has been seen the look-alike diagnostics stay off
